@@ -937,6 +937,40 @@ def gen_cse(seed: int) -> str:
         lines.append(f"Signal v{n} = {y};")
         if rng.random() < 0.5:
             lines.append(f"Signal w{n} = (u{n} | \"signal-8\") + (v{n} | \"signal-9\");")
+    # a genuinely repeated sub-expression whose second copy is read by a consumer other than arithmetic: every kind of
+    # reader must follow the merge (bundle literal, set / reset of a latch, memory data, entity property)
+    if rng.random() < 0.55:
+        dup = rng.choice([f"({a} * {k1})", f"({a} + {b})", f"({a} {cmp1} {c1})"])
+        lines.append(f"Signal d1 = {dup};")
+        lines.append(f"Signal d2 = {dup};")
+        kind = rng.choice(["bundle", "bundle", "latch", "latch_same", "memory", "enable"])
+        if kind == "bundle":
+            lines.append(f"Bundle bm = {{ d2, ({b} | \"signal-6\") }};")
+            lines.append("Bundle bm2 = bm * 2;")
+            lines.append("Signal d3 = d1 + 1;")
+        elif kind == "latch":
+            lines.append('Memory ld: "signal-5";')
+            lines.append(f"Signal sd1 = ({a} > {c1});")
+            lines.append(f"Signal sd2 = ({a} > {c1});")
+            lines.append(f"Signal sd3 = sd1 + 1;")
+            lines.append(f"ld.write(1, set=sd2, reset=({b} > {c2}));")
+            lines.append("Signal rd = ld.read();")
+        elif kind == "latch_same":
+            lines.append('Memory ld: "signal-5";')
+            lines.append(f"Signal sd1 = ({a} > {c1});")
+            lines.append(f"Signal sd2 = ({a} > {c1});")
+            order = rng.random() < 0.5
+            lines.append("ld.write(1, set=sd1, reset=sd2);" if order else "ld.write(1, reset=sd2, set=sd1);")
+            lines.append("Signal rd = ld.read();")
+        elif kind == "memory":
+            lines.append('Memory md: "signal-4";')
+            lines.append(f'md.write((d2 | "signal-4"), when=({b} > {c2}));')
+            lines.append("Signal rmd = md.read();")
+            lines.append("Signal d3 = d1 + 1;")
+        else:
+            lines.append('Entity lampd = place("small-lamp", 3, 5);')
+            lines.append(f"lampd.enable = d2 > {c2};")
+            lines.append("Signal d3 = d1 + 1;")
     # folded constants feeding different consumers
     r = rng.random()
     if r < 0.3:
